@@ -25,93 +25,6 @@ theorem C05_syntax_nothing (env : PEnv) (orc : EvalOracles) (ok : Bool) (conf : 
     ∃ h, Proofs.callsOf plan (mainP env orc ok conf files input) w = [.fopen env.confpath, .fclose h] :=
   Proofs.syntax_only_calls env orc ok conf files input w plan hn
 
-/-! ## dry run in stdin mode (`-d -`)
-
-`C05_dry_no_mutation` is about maildir mode.  With `-` the run has to spool standard input, so it does
-create and remove files - its own.  `Proofs.DrySpoolCall env tr c` (Proofs/WorldDryStdin.lean) is the
-complete description of a call `c` issued when the calls and results so far are `tr`:
-
-* `fopen` of the configuration file and `fclose` of the stream it returned;
-* `mkdtemp` of `TMPDIR/mdsort-XXXXXXXX`; `mkdir` and `opendir` of `root/new` for a `root` that `mkdtemp`
-  returned in `tr` (`dry_IsNew`); `openat(O_CREAT|O_EXCL)`, `readdir`, `rewinddir`, `closedir`, `openat(O_RDONLY)`
-  on a stream such an `opendir` returned (`dry_IsDir`); `write` and `fsync` on a descriptor such an exclusive
-  create returned (`dry_IsFd`); `unlinkat` on such a stream of a name its `readdir` returned; `rmdir` of such a
-  `root`, of its `new`, or of the empty path (the cleanup after a failed `mkdtemp`, which names nothing);
-* `read` and `close`;
-* nothing else: no `renameat`, `unlink`, `utimensat`, `mkostemp`, `fprintf`, `fork`, `waitpid`, `stat`, and no
-  `opendir` of a configured maildir or of a destination. -/
-
-/-- `-d -`, whatever the calls return (hence under every fault plan and every interleaving with other
-processes), whatever the configuration, the registry and the input are: every call of the run is one of
-the calls listed above. -/
-theorem C05_dry_stdin (env : PEnv) (orc : EvalOracles) (ok : Bool) (conf : List ConfBlock) (files : Files) (input : Bytes)
-    (hd : env.dryrun = true) (hm : env.stdinMode = true) (orcl : Nat → Call → Res) :
-    ∀ i c r, (runOracle orcl (mainP env orc ok conf files input) 0 []).2[i]? = some (c, r) →
-      Proofs.DrySpoolCall env ((runOracle orcl (mainP env orc ok conf files input) 0 []).2.take i) c :=
-  Proofs.dry_stdin_calls env orc ok conf files input hd hm orcl
-
-/-- The same for the execution on the abstract file system under any fault plan (`tr` = the calls the
-run added to the trace of the world). -/
-theorem C05_dry_stdin_plan (env : PEnv) (orc : EvalOracles) (ok : Bool) (conf : List ConfBlock) (files : Files) (input : Bytes)
-    (w : World) (plan : Plan) (hd : env.dryrun = true) (hm : env.stdinMode = true) :
-    ∀ i c r, ((runPlan plan (mainP env orc ok conf files input) w 0 []).2.1.trace.drop w.trace.length)[i]? = some (c, r) →
-      Proofs.DrySpoolCall env (((runPlan plan (mainP env orc ok conf files input) w 0 []).2.1.trace.drop w.trace.length).take i) c :=
-  Proofs.dry_stdin_calls_plan env orc ok conf files input w plan hd hm
-
-/-- Read for the mutating calls only: no process is started, and a mutating call is the `mkdtemp` of the
-spool template, the `mkdir` of the spool's `new`, an exclusive create or an `unlinkat` in the spool, a
-`write` to the spool file, or the `rmdir` of the spool. -/
-theorem C05_dry_stdin_mutating (env : PEnv) (tr : List (Call × Res)) (c : Call) (h : Proofs.DrySpoolCall env tr c) :
-    c ≠ .fork ∧ (c.mutating = true →
-      (∃ t, c = .mkdtemp t ∧ pathjoin PATH_MAX env.tmpdir (ofString "mdsort-XXXXXXXX") = some t) ∨
-      (∃ p, c = .mkdir p ∧ Proofs.dry_IsNew tr p) ∨
-      (∃ d n, c = .openExcl d n ∧ Proofs.dry_IsDir tr d) ∨
-      (∃ fd data, c = .write fd data ∧ Proofs.dry_IsFd tr fd) ∨
-      (∃ d n, c = .unlinkat d n ∧ Proofs.dry_IsDir tr d ∧ (Call.readdir d, Res.name n) ∈ tr) ∨
-      (∃ p, c = .rmdir p ∧ (p = [] ∨ Proofs.dry_IsRoot tr p ∨ Proofs.dry_IsNew tr p))) :=
-  h.kinds
-
-/-- ... and the spool is gone at the end (`C04_stdin_spool_removed` holds for every rule set, in
-particular under `-d`): for one `stdin` block and every fault plan that injects nothing from the first
-call of the cleanup on, every directory that exists when `main` returns existed before. -/
-theorem C05_dry_stdin_spool_removed (env : PEnv) (orc : EvalOracles) (conf : List ConfBlock) (files : Files) (input : Bytes)
-    (expr : Expr) (w : World) (plan : Plan) (hm : env.stdinMode = true) (hs : env.syntaxOnly = false)
-    (hc : Proofs.World.stdinExprs conf = [expr]) (hin : Proofs.World.StdinIs w input)
-    (hfresh : Proofs.World.SpoolFresh env w)
-    (hplan : ∀ j, Proofs.stdinCleanupStart plan env orc expr files input w ≤ j → plan j = none) :
-    ∀ q, ((runPlan plan (mainP env orc true conf files input) w 0 []).2.1.dir q).isSome → (w.dir q).isSome :=
-  Proofs.stdin_spool_removed env orc conf files input expr w plan hm hs hc hin hfresh hplan
-
-/-- `-n -`: only `fopen` / `fclose` of the configuration (`C05_syntax_nothing` has no hypothesis on the mode). -/
-theorem C05_syntax_stdin (env : PEnv) (orc : EvalOracles) (ok : Bool) (conf : List ConfBlock) (files : Files) (input : Bytes)
-    (w : World) (plan : Plan) (hn : env.syntaxOnly = true) (_hm : env.stdinMode = true) :
-    Proofs.callsOf plan (mainP env orc ok conf files input) w = [.fopen env.confpath] ∨
-    ∃ h, Proofs.callsOf plan (mainP env orc ok conf files input) w = [.fopen env.confpath, .fclose h] :=
-  Proofs.syntax_only_calls env orc ok conf files input w plan hn
-
-/-! Non-vacuity: the stdin example of C04 (10-byte message, `stdin { match all move "/m/inbox" }`,
-`/m/inbox/new` present) run with `-d`. -/
-
-/-- The example environment with `-d`. -/
-def C05_exDry : PEnv := { Proofs.StdinExample.env0 with dryrun := true }
-
-example : C05_exDry.dryrun = true ∧ C05_exDry.stdinMode = true := ⟨rfl, rfl⟩
-
-/-- The spool's own mutating calls do occur: `maildir_stdin` of the example without faults. -/
-example : Proofs.callsOf Plan.none (maildirStdin C05_exDry Proofs.StdinExample.input0) Proofs.StdinExample.w0 =
-    [.mkdtemp (Proofs.World.spoolRoot C05_exDry), .mkdir (Proofs.World.spoolPath C05_exDry),
-     .opendir (Proofs.World.spoolPath C05_exDry), .openExcl 1 Proofs.StdinExample.name0, .read 0,
-     .write 2 Proofs.StdinExample.input0, .read 0, .fsync 2, .close 2] := by
-  decide +kernel
-
-/-- Non-vacuity of `C05_dry_stdin_spool_removed`: the example with `-d`, fault-free. -/
-example : ∀ q, ((runPlan Plan.none (mainP C05_exDry Proofs.StdinExample.orc0 true Proofs.StdinExample.conf0 []
-    Proofs.StdinExample.input0) Proofs.StdinExample.w0 0 []).2.1.dir q).isSome → (Proofs.StdinExample.w0.dir q).isSome :=
-  C05_dry_stdin_spool_removed _ _ _ _ _ _ _ _ rfl rfl Proofs.StdinExample.ex_stdinExprs Proofs.StdinExample.ex_stdinIs
-    (by constructor <;> decide +kernel) (fun _ _ => rfl)
-
-example : C05_exDry.syntaxOnly = false ∧ ({ C05_exDry with syntaxOnly := true } : PEnv).syntaxOnly = true := ⟨rfl, rfl⟩
-
 /-! ## The command line (package ce13): which mode a run is in
 
 `Model.parseArgs` (Model/Opts.lean) transcribes the `getopt(argc, argv, "D:df:nv")` loop of `main` and the operand test
@@ -238,5 +151,92 @@ example :
      | .ok o1, .ok o2 => decide ({ o1 with verbosity := 0 } = { o2 with verbosity := 0 }) && o1.verbosity == 2
      | _, _ => false) = true := by
   decide +kernel
+
+/-! ## dry run in stdin mode (`-d -`)
+
+`C05_dry_no_mutation` is about maildir mode.  With `-` the run has to spool standard input, so it does
+create and remove files - its own.  `Proofs.DrySpoolCall env tr c` (Proofs/WorldDryStdin.lean) is the
+complete description of a call `c` issued when the calls and results so far are `tr`:
+
+* `fopen` of the configuration file and `fclose` of the stream it returned;
+* `mkdtemp` of `TMPDIR/mdsort-XXXXXXXX`; `mkdir` and `opendir` of `root/new` for a `root` that `mkdtemp`
+  returned in `tr` (`dry_IsNew`); `openat(O_CREAT|O_EXCL)`, `readdir`, `rewinddir`, `closedir`, `openat(O_RDONLY)`
+  on a stream such an `opendir` returned (`dry_IsDir`); `write` and `fsync` on a descriptor such an exclusive
+  create returned (`dry_IsFd`); `unlinkat` on such a stream of a name its `readdir` returned; `rmdir` of such a
+  `root`, of its `new`, or of the empty path (the cleanup after a failed `mkdtemp`, which names nothing);
+* `read` and `close`;
+* nothing else: no `renameat`, `unlink`, `utimensat`, `mkostemp`, `fprintf`, `fork`, `waitpid`, `stat`, and no
+  `opendir` of a configured maildir or of a destination. -/
+
+/-- `-d -`, whatever the calls return (hence under every fault plan and every interleaving with other
+processes), whatever the configuration, the registry and the input are: every call of the run is one of
+the calls listed above. -/
+theorem C05_dry_stdin (env : PEnv) (orc : EvalOracles) (ok : Bool) (conf : List ConfBlock) (files : Files) (input : Bytes)
+    (hd : env.dryrun = true) (hm : env.stdinMode = true) (orcl : Nat → Call → Res) :
+    ∀ i c r, (runOracle orcl (mainP env orc ok conf files input) 0 []).2[i]? = some (c, r) →
+      Proofs.DrySpoolCall env ((runOracle orcl (mainP env orc ok conf files input) 0 []).2.take i) c :=
+  Proofs.dry_stdin_calls env orc ok conf files input hd hm orcl
+
+/-- The same for the execution on the abstract file system under any fault plan (`tr` = the calls the
+run added to the trace of the world). -/
+theorem C05_dry_stdin_plan (env : PEnv) (orc : EvalOracles) (ok : Bool) (conf : List ConfBlock) (files : Files) (input : Bytes)
+    (w : World) (plan : Plan) (hd : env.dryrun = true) (hm : env.stdinMode = true) :
+    ∀ i c r, ((runPlan plan (mainP env orc ok conf files input) w 0 []).2.1.trace.drop w.trace.length)[i]? = some (c, r) →
+      Proofs.DrySpoolCall env (((runPlan plan (mainP env orc ok conf files input) w 0 []).2.1.trace.drop w.trace.length).take i) c :=
+  Proofs.dry_stdin_calls_plan env orc ok conf files input w plan hd hm
+
+/-- Read for the mutating calls only: no process is started, and a mutating call is the `mkdtemp` of the
+spool template, the `mkdir` of the spool's `new`, an exclusive create or an `unlinkat` in the spool, a
+`write` to the spool file, or the `rmdir` of the spool. -/
+theorem C05_dry_stdin_mutating (env : PEnv) (tr : List (Call × Res)) (c : Call) (h : Proofs.DrySpoolCall env tr c) :
+    c ≠ .fork ∧ (c.mutating = true →
+      (∃ t, c = .mkdtemp t ∧ pathjoin PATH_MAX env.tmpdir (ofString "mdsort-XXXXXXXX") = some t) ∨
+      (∃ p, c = .mkdir p ∧ Proofs.dry_IsNew tr p) ∨
+      (∃ d n, c = .openExcl d n ∧ Proofs.dry_IsDir tr d) ∨
+      (∃ fd data, c = .write fd data ∧ Proofs.dry_IsFd tr fd) ∨
+      (∃ d n, c = .unlinkat d n ∧ Proofs.dry_IsDir tr d ∧ (Call.readdir d, Res.name n) ∈ tr) ∨
+      (∃ p, c = .rmdir p ∧ (p = [] ∨ Proofs.dry_IsRoot tr p ∨ Proofs.dry_IsNew tr p))) :=
+  h.kinds
+
+/-- ... and the spool is gone at the end (`C04_stdin_spool_removed` holds for every rule set, in
+particular under `-d`): for one `stdin` block and every fault plan that injects nothing from the first
+call of the cleanup on, every directory that exists when `main` returns existed before. -/
+theorem C05_dry_stdin_spool_removed (env : PEnv) (orc : EvalOracles) (conf : List ConfBlock) (files : Files) (input : Bytes)
+    (expr : Expr) (w : World) (plan : Plan) (hm : env.stdinMode = true) (hs : env.syntaxOnly = false)
+    (hc : Proofs.World.stdinExprs conf = [expr]) (hin : Proofs.World.StdinIs w input)
+    (hfresh : Proofs.World.SpoolFresh env w)
+    (hplan : ∀ j, Proofs.stdinCleanupStart plan env orc expr files input w ≤ j → plan j = none) :
+    ∀ q, ((runPlan plan (mainP env orc true conf files input) w 0 []).2.1.dir q).isSome → (w.dir q).isSome :=
+  Proofs.stdin_spool_removed env orc conf files input expr w plan hm hs hc hin hfresh hplan
+
+/-- `-n -`: only `fopen` / `fclose` of the configuration (`C05_syntax_nothing` has no hypothesis on the mode). -/
+theorem C05_syntax_stdin (env : PEnv) (orc : EvalOracles) (ok : Bool) (conf : List ConfBlock) (files : Files) (input : Bytes)
+    (w : World) (plan : Plan) (hn : env.syntaxOnly = true) (_hm : env.stdinMode = true) :
+    Proofs.callsOf plan (mainP env orc ok conf files input) w = [.fopen env.confpath] ∨
+    ∃ h, Proofs.callsOf plan (mainP env orc ok conf files input) w = [.fopen env.confpath, .fclose h] :=
+  Proofs.syntax_only_calls env orc ok conf files input w plan hn
+
+/-! Non-vacuity: the stdin example of C04 (10-byte message, `stdin { match all move "/m/inbox" }`,
+`/m/inbox/new` present) run with `-d`. -/
+
+/-- The example environment with `-d`. -/
+def C05_exDry : PEnv := { Proofs.StdinExample.env0 with dryrun := true }
+
+example : C05_exDry.dryrun = true ∧ C05_exDry.stdinMode = true := ⟨rfl, rfl⟩
+
+/-- The spool's own mutating calls do occur: `maildir_stdin` of the example without faults. -/
+example : Proofs.callsOf Plan.none (maildirStdin C05_exDry Proofs.StdinExample.input0) Proofs.StdinExample.w0 =
+    [.mkdtemp (Proofs.World.spoolRoot C05_exDry), .mkdir (Proofs.World.spoolPath C05_exDry),
+     .opendir (Proofs.World.spoolPath C05_exDry), .openExcl 1 Proofs.StdinExample.name0, .read 0,
+     .write 2 Proofs.StdinExample.input0, .read 0, .fsync 2, .close 2] := by
+  decide +kernel
+
+/-- Non-vacuity of `C05_dry_stdin_spool_removed`: the example with `-d`, fault-free. -/
+example : ∀ q, ((runPlan Plan.none (mainP C05_exDry Proofs.StdinExample.orc0 true Proofs.StdinExample.conf0 []
+    Proofs.StdinExample.input0) Proofs.StdinExample.w0 0 []).2.1.dir q).isSome → (Proofs.StdinExample.w0.dir q).isSome :=
+  C05_dry_stdin_spool_removed _ _ _ _ _ _ _ _ rfl rfl Proofs.StdinExample.ex_stdinExprs Proofs.StdinExample.ex_stdinIs
+    (by constructor <;> decide +kernel) (fun _ _ => rfl)
+
+example : C05_exDry.syntaxOnly = false ∧ ({ C05_exDry with syntaxOnly := true } : PEnv).syntaxOnly = true := ⟨rfl, rfl⟩
 
 end Mdsort.Props
